@@ -53,7 +53,16 @@ def menu():
         ('forward-no-tx-route', mk('dtn://lost/x', 'dtn://src/', (T, 8), data=b'LOST', **rq)),
         # the node's own endpoint, payload not flagged as an administrative record
         ('node-endpoint-plain', mk(NODE, 'dtn://src/', (T, 10), data=b'PLAIN')),
+        # only in the "twins" scenarios: a second fragmented bundle of the same source made in the same
+        # millisecond (next sequence number), and one made a millisecond later
+        ('twin-0', mk('dtn://node/app', 'dtn://fsrc/', (T, 10), flags=B.FLAG_IS_FRAGMENT, data=b'uvw', frag_offset=0, total_adu=6)),
+        ('twin-3', mk('dtn://node/app', 'dtn://fsrc/', (T, 10), flags=B.FLAG_IS_FRAGMENT, data=b'xyz', frag_offset=3, total_adu=6)),
+        ('later-3', mk('dtn://node/app', 'dtn://fsrc/', (T + 1, 9), flags=B.FLAG_IS_FRAGMENT, data=b'klm', frag_offset=3, total_adu=6)),
     ]
+
+
+MAIN = 14       # the first fourteen bundles are the menu of the general scenarios
+TWINS = [4, 5, 14, 15, 16]
 
 
 # every destination except dtn://lost/... has a transmit route
@@ -85,6 +94,7 @@ class RefRouter(object):
         self.delivered = []     # identities an application must have been handed
         self.forwarded = []     # identities that must have been transmitted
         self.frags = {}
+        self.payloads = {}      # identity -> application data it must have been delivered with
 
     def route(self, dest):
         if dest == NODE:
@@ -118,8 +128,11 @@ class RefRouter(object):
                         self.seen.add(base)
                         if self.route(pri['dest']) == 'deliver':
                             self.delivered.append(base)
+                            self.payloads[base] = b''.join(bytes([dict((o + k, d[k]) for (o, d) in got.items() for k in range(len(d)))[i]])
+                                                           for i in range(pri['total_adu']))
             else:
                 self.delivered.append(idn)
+                self.payloads[idn] = bundle['blocks'][-1]['data']
         elif action == 'forward' and not pri['dest'].startswith('dtn://lost/'):
             self.forwarded.append(idn)
 
@@ -176,9 +189,8 @@ class HistWorld(BpWorld):
         if self.runnable(self.proc):
             events.append(('run', 'N'))
         if self.depth < self.params['max_depth']:
-            for idx in range(len(MENU)):
-                if idx in self.params.get('menu', range(len(MENU))):
-                    events.append(('rx', idx))
+            for idx in self.params.get('menu', range(MAIN)):
+                events.append(('rx', idx))
         return events
 
     def is_deviation(self, event):
@@ -229,6 +241,12 @@ class HistWorld(BpWorld):
                     out.append(self.v('%s-more-than-once' % name, dict(), 'identity %r %d times' % (item, got.count(item))))
                 if item not in want:
                     out.append(self.v('%s-against-reference' % name, dict(), 'identity %r was %s; reference expects %r' % (item, name, want)))
+        for d in self.probe.seen:
+            idn = (d['src'], d['ts'][0], d['ts'][1])
+            data = [bytes.fromhex(b[2]) for b in d['blocks'] if b[0] == 1]
+            if idn in ref.payloads and data != [ref.payloads[idn]]:
+                out.append(self.v('delivered-with-octets-of-another-bundle', dict(), 'identity %r delivered with %r, its application data is %r'
+                                  % (idn, data, ref.payloads[idn])))
         quiescent = not self.runnable(self.proc)
         reports = reports_of(self)
         want_reports = sorted(self.ref_reports, key=repr)
@@ -255,15 +273,135 @@ def build(params):
     return HistWorld(params)
 
 
+# ---------------------------------------------------------------------------
+# routing tables that come from the configuration file
+
+RX_POOL = [
+    dict(eid_pattern='^dtn://node/.*', action='deliver'),
+    dict(eid_pattern='^dtn://blocked/.*', action='delete'),
+    dict(eid_pattern='^dtn://.*', action='forward'),
+    dict(eid_pattern='.*', action='forward'),
+    # entries that cannot be used
+    dict(eid_pattern='dtn://(old/.*', action='forward'),
+    dict(action='deliver'),
+    dict(eid_pattern='^dtn://node/.*'),
+    'dtn://node/.* deliver',
+]
+TX_POOL = [
+    dict(eid_pattern='^dtn://far/.*', next_nodeid='dtn://next/', cl_type='udpcl', address='10.0.0.9', port=4556),
+    dict(eid_pattern='.*', next_nodeid='dtn://other/', cl_type='udpcl', address='10.0.0.10', port=4556),
+    dict(eid_pattern='dtn://[far/.*', next_nodeid='dtn://next/', cl_type='udpcl', address='10.0.0.9', port=4556),
+    dict(eid_pattern='^dtn://.*', next_nodeid='dtn://next/'),
+]
+FILE_DESTS = ['dtn://node/svc', 'dtn://far/svc', 'dtn://blocked/x', 'ipn:5.1', 'dtn://old/a']
+
+
+def _usable_rx(item):
+    if not (isinstance(item, dict) and 'action' in item and isinstance(item.get('eid_pattern'), str)):
+        return False
+    try:
+        re.compile(item['eid_pattern'])
+    except re.error:
+        return False
+    return True
+
+
+def _usable_tx(item):
+    return _usable_rx(dict(item, action='x') if isinstance(item, dict) else item) and 'next_nodeid' in item and 'cl_type' in item
+
+
+def run_config_tables(params, known):
+    '''The routing tables as bp.config.Config.from_file() builds them from a configuration document:
+    every receive table of up to 3 entries over a pool of 4 usable and 4 unusable entries (and every
+    transmit table of up to 3 over 2 usable + 2 unusable).  The loaded table is the usable entries in
+    file order, and five bundles are routed by the first usable matching entry.'''
+    import itertools
+    import json
+    violations = []
+    kinds = set()
+    count = 0
+    keys = set()
+
+    def viol(kind, detail, doc):
+        if kind in kinds:
+            return
+        kinds.add(kind)
+        v = Violation(PROP, 'config-file', kind, dict(), '%s (document %s)' % (detail, json.dumps(doc['bp'])[:600])).as_dict()
+        violations.append(v)
+    docs = []
+    fixed_tx = [TX_POOL[1]]
+    fixed_rx = [RX_POOL[0], RX_POOL[1], RX_POOL[3]]
+    for n in range(0, 4):
+        for combo in itertools.product(range(len(RX_POOL)), repeat=n):
+            docs.append(([RX_POOL[i] for i in combo], fixed_tx))
+    for n in range(0, 4):
+        for combo in itertools.product(range(len(TX_POOL)), repeat=n):
+            docs.append((fixed_rx, [TX_POOL[i] for i in combo]))
+    (part, parts) = (params.get('part', 0), params.get('parts', 1))
+    T0 = 700000000000
+    for (k, (rx, tx)) in enumerate(docs):
+        if k % parts != part:
+            continue
+        count += 1
+        doc = dict(bp=dict(node_id=NODE, rx_route_table=rx, tx_route_table=tx))
+        world = BpWorld(dict(node_id='dtn://unset/', rx_routes=[], tx_routes=[], config_text=json.dumps(doc)))
+        want_rx = [(i['eid_pattern'], i['action']) for i in rx if _usable_rx(i)]
+        want_tx = [(i['eid_pattern'], i['next_nodeid']) for i in tx if _usable_tx(i)]
+        got_rx = [(i.eid_pattern.pattern, i.action) for i in world.cfg.rx_route_table]
+        got_tx = [(i.eid_pattern.pattern, i.next_nodeid) for i in world.cfg.tx_route_table]
+        if got_rx != want_rx:
+            viol('receive-table-differs-from-configuration', 'loaded %r, the usable entries in file order are %r' % (got_rx, want_rx), doc)
+        if got_tx != want_tx:
+            viol('transmit-table-differs-from-configuration', 'loaded %r, the usable entries in file order are %r' % (got_tx, want_tx), doc)
+        if world.cfg.node_id != NODE:
+            viol('node-id-not-loaded', repr(world.cfg.node_id), doc)
+        want_delivered, want_forwarded = [], []
+        for (j, dest) in enumerate(FILE_DESTS):
+            bundle = dict(primary=dict(flags=0, crc_type=1, dest=dest, src='dtn://src/', report_to='dtn:none', ts=(T0, j), lifetime=3600000),
+                          blocks=[dict(type=1, num=1, flags=0, crc_type=1, data=b'D%d' % j)])
+            action = next((a for (p, a) in want_rx if re.match(p, dest)), None)
+            if action == 'deliver':
+                want_delivered.append(('dtn://src/', T0, j))
+            elif action == 'forward' and any(re.match(p, dest) for (p, _n) in want_tx):
+                want_forwarded.append(('dtn://src/', T0, j))
+            keys.add('%s/%s' % (action, dest))
+            world.receive(B.encode(bundle))
+            world.quiesce()
+        if world.escaped or world.api_errors:
+            esc = (world.escaped or world.api_errors)[-1]
+            viol('exception-escaped', '%s: %s' % (esc[0], esc[1 if world.api_errors else 2]), doc)
+            continue
+        delivered = [(d['src'], d['ts'][0], d['ts'][1]) for d in world.probe.seen]
+        forwarded = []
+        for octets in world.sent():
+            dec = B.decode(octets)
+            if not dec['primary']['flags'] & B.FLAG_ADMIN:
+                forwarded.append(ident_of(dec))
+        if sorted(delivered) != sorted(want_delivered):
+            viol('deliveries-differ-from-configured-first-match', 'delivered %r, the configured table gives %r' % (delivered, want_delivered), doc)
+        if sorted(forwarded) != sorted(want_forwarded):
+            viol('transmissions-differ-from-configured-first-match', 'transmitted %r, the configured tables give %r' % (forwarded, want_forwarded), doc)
+    return dict(name=params['name'], evaluations=count, nontrivial_keys=sorted(keys), violations=violations, known=[], samples=[])
+
+
 def scenarios(tier):
     depth = 4 if tier == 'thorough' else 3
     out = []
     for table in TABLES:
         # split by first event for parallelism
-        for first in range(len(MENU)):
+        for first in range(MAIN):
             out.append(dict(name='%s/first-%s' % (table, MENU[first][0]), kind='graph',
                             params=dict(table=table, max_depth=depth, first=first), dev_bound=0, use_snapshot=False,
                             liveness=False, max_states=500000, weight=1))
+    # fragments of look-alike bundles (same source and time, next sequence number; a millisecond later), interleaved
+    for table in ('deliver-first', 'overlap-b'):
+        for first in TWINS:
+            out.append(dict(name='twins/%s/first-%s' % (table, MENU[first][0]), kind='graph',
+                            params=dict(table=table, max_depth=depth + 1, first=first, menu=TWINS), dev_bound=0, use_snapshot=False,
+                            liveness=False, max_states=500000, weight=1))
+    for part in range(4):
+        name = 'config-tables-%d/4' % (part + 1)
+        out.append(dict(name=name, kind='enum', runner='run_config_tables', params=dict(name=name, part=part, parts=4), weight=3))
     return out
 
 
@@ -290,6 +428,9 @@ HistWorld.check_state = _check_state
 
 ASSUMPTIONS = [
     'receive histories of at most 3 (quick) / 4 (thorough) bundles from a menu of fourteen, idle callbacks interleaved in every order',
+    'twins scenarios: histories of at most 4 (quick) / 5 (thorough) fragments of three look-alike fragmented bundles (same source; same time and the next sequence number; a millisecond later), under two tables',
+    'a delivered bundle carries its own application data (for a reassembled one: the octets of its own fragments)',
+    'configuration file: every receive table of up to 3 entries over 4 usable + 4 unusable entries (670 documents with the transmit tables of up to 3 over 2 + 2), read by the JSON-subset stand-in for PyYAML; five destinations routed through each',
     'routing patterns are matched with re.match (anchored at the start) as the configuration loader compiles them',
     'a bundle addressed to the node\'s own administrative endpoint is delivered whatever the table says',
     'four menu bundles request every status report towards a routed report-to endpoint; the reports expected for a history are those a fresh agent emits for the first copy of each identity alone (differential reference), as an upper bound in every state and exactly when quiescent',
@@ -301,4 +442,14 @@ RULE = ('explicit-state search by replay on fresh real agents: all receive histo
 
 
 def evidence(tier, seed, scens, results, wall_s):
-    return graph_evidence(PROP, tier, seed, scens, results, wall_s, ASSUMPTIONS, RULE)
+    graphs = [r for r in results if r and r.get('kind') == 'graph']
+    enums = [r for r in results if r and r.get('kind') == 'enum']
+    ev = graph_evidence(PROP, tier, seed, [sc for sc in scens if sc['kind'] == 'graph'], graphs, wall_s, ASSUMPTIONS, RULE)
+    cov = ev['coverage']
+    cov['evaluations'] = sum(r.get('evaluations', 0) for r in enums)
+    keys = set()
+    for r in enums:
+        keys.update(r.get('nontrivial_keys', []))
+    cov['distinct_nontrivial'] = len(keys)
+    cov['exhaustive'] = cov['exhaustive'] and len([r for r in results if r and r.get('kind') != 'error']) == len(results)
+    return ev
